@@ -23,6 +23,7 @@ type gCase struct {
 	Class  string `json:"class"`
 	ErrMsg string `json:"err,omitempty"`
 	NoCoq  bool   `json:"no_coq,omitempty"`
+	Huge   bool   `json:"huge,omitempty"` // the implementation died or over-allocated: the model must say DHuge
 }
 
 func gEncode(s tarsStruct) ([]byte, error) {
@@ -50,6 +51,9 @@ func gDecodeInto(target tarsStruct, bs []byte) (obs string, errMsg string) {
 func gCoq(c *gCase) string {
 	if c.NoCoq {
 		return ""
+	}
+	if c.Huge {
+		return fmt.Sprintf("GHuge %d%%nat %s", c.Sid, hx(c.Bytes))
 	}
 	switch c.Kind {
 	case "enc":
